@@ -1,0 +1,183 @@
+//go:build verif
+
+package vuego
+
+// Hooks for the verification machinery in /verif. Compiled only with `-tags verif`; add-only.
+// They forward to unexported functions and expose internal state; they contain no logic of their own.
+
+import (
+	"bytes"
+	"io"
+
+	"golang.org/x/net/html"
+
+	"github.com/titpetric/vuego/internal/helpers"
+	"github.com/titpetric/vuego/internal/parser"
+	ireflect "github.com/titpetric/vuego/internal/reflect"
+)
+
+// VerifEscapeAttrValue forwards to escapeAttrValue.
+func VerifEscapeAttrValue(s string) string { return escapeAttrValue(s) }
+
+// VerifShouldEscapeTextNode forwards to shouldEscapeTextNode.
+func VerifShouldEscapeTextNode(s string) bool { return shouldEscapeTextNode(s) }
+
+// VerifShouldIgnoreAttr forwards to shouldIgnoreAttr.
+func VerifShouldIgnoreAttr(s string) bool { return shouldIgnoreAttr(s) }
+
+// VerifIsLiteralAttr forwards to isLiteralAttr.
+func VerifIsLiteralAttr(s string) bool { return isLiteralAttr(s) }
+
+// VerifContainsInterpolation forwards to containsInterpolation.
+func VerifContainsInterpolation(s string) bool { return containsInterpolation(s) }
+
+// VerifNeedsHTMLEscape forwards to helpers.NeedsHTMLEscape.
+func VerifNeedsHTMLEscape(s string) bool { return helpers.NeedsHTMLEscape(s) }
+
+// VerifIsTruthy forwards to helpers.IsTruthy.
+func VerifIsTruthy(v any) bool { return helpers.IsTruthy(v) }
+
+// VerifIsComplexExpr forwards to helpers.IsComplexExpr.
+func VerifIsComplexExpr(s string) bool { return helpers.IsComplexExpr(s) }
+
+// VerifIsFunctionCall forwards to helpers.IsFunctionCall.
+func VerifIsFunctionCall(s string) bool { return helpers.IsFunctionCall(s) }
+
+// VerifContainsPipe forwards to helpers.ContainsPipe.
+func VerifContainsPipe(s string) bool { return helpers.ContainsPipe(s) }
+
+// VerifIsIdentifierChar forwards to helpers.IsIdentifierChar.
+func VerifIsIdentifierChar(ch rune, first bool) bool { return helpers.IsIdentifierChar(ch, first) }
+
+// VerifCamelToKebab forwards to camelToKebab.
+func VerifCamelToKebab(s string) string { return camelToKebab(s) }
+
+// VerifNormalizeComparisonOperators forwards to helpers.NormalizeComparisonOperators.
+func VerifNormalizeComparisonOperators(s string) string {
+	return helpers.NormalizeComparisonOperators(s)
+}
+
+// VerifSplitPath forwards to splitPathImpl.
+func VerifSplitPath(expr string) []string { return splitPathImpl(expr) }
+
+// VerifParseFor forwards to parseFor.
+func VerifParseFor(s string) ([]string, string, error) { return parseFor(s) }
+
+// VerifParseTemplateBytes forwards to parser.ParseTemplateBytes.
+func VerifParseTemplateBytes(b []byte) ([]*html.Node, error) { return parser.ParseTemplateBytes(b) }
+
+// VerifExtractFrontMatter forwards to extractFrontMatter.
+func VerifExtractFrontMatter(b []byte) (map[string]any, []byte, error) { return extractFrontMatter(b) }
+
+// VerifSerialise runs the serialiser alone over already evaluated nodes.
+func VerifSerialise(v *Vue, nodes []*html.Node) (string, error) {
+	var buf bytes.Buffer
+	err := v.render(&buf, nodes)
+	return buf.String(), err
+}
+
+// VerifEvaluate runs evaluate alone (after the same deep clone and component-tag rewrite as renderNodesWithContext).
+func VerifEvaluate(v *Vue, filename string, nodes []*html.Node, data any) ([]*html.Node, *Stack, error) {
+	st := NewStackWithData(toMapData(data), data)
+	ctx := NewVueContext(filename, &VueContextOptions{Stack: st, Processors: v.nodeProcessors})
+	nodeCopy := make([]*html.Node, 0, len(nodes))
+	for i := 0; i < len(nodes); i++ {
+		nodeCopy = append(nodeCopy, helpers.DeepCloneNode(nodes[i]))
+	}
+	if err := v.preProcessNodes(ctx, nodeCopy); err != nil {
+		return nil, st, err
+	}
+	res, err := v.evaluate(ctx, nodeCopy, 0)
+	return res, st, err
+}
+
+// VerifInterpolate runs interpolate with the given parent tag on the tag stack.
+func VerifInterpolate(v *Vue, st *Stack, parentTag, input string) (string, error) {
+	ctx := NewVueContext("", &VueContextOptions{Stack: st})
+	if parentTag != "" {
+		ctx.PushTag(parentTag)
+	}
+	return v.interpolate(ctx, input)
+}
+
+// VerifEvalAttributes runs evalAttributes on a node (mutating it, as the code does) and returns the props map.
+func VerifEvalAttributes(v *Vue, st *Stack, n *html.Node) (map[string]any, error) {
+	ctx := NewVueContext("", &VueContextOptions{Stack: st})
+	return v.evalAttributes(ctx, n)
+}
+
+// VerifEvalCondition runs evalConditionExpr.
+func VerifEvalCondition(v *Vue, st *Stack, expr string) (bool, error) {
+	ctx := NewVueContext("", &VueContextOptions{Stack: st})
+	return v.evalConditionExpr(ctx, expr)
+}
+
+// VerifRenderNodesTo runs renderNodesWithContext with a fresh context over st, writing to w.
+func VerifRenderNodesTo(v *Vue, w io.Writer, filename string, st *Stack, nodes []*html.Node) error {
+	ctx := NewVueContext(filename, &VueContextOptions{Stack: st, Processors: v.nodeProcessors})
+	return v.renderNodesWithContext(ctx, w, nodes)
+}
+
+// VerifVue returns the engine behind a Template.
+func VerifVue(t Template) *Vue {
+	if tt, ok := t.(*template); ok {
+		return tt.vue
+	}
+	return nil
+}
+
+// VerifTemplateStack returns the variable stack of a Template.
+func VerifTemplateStack(t Template) *Stack {
+	if tt, ok := t.(*template); ok {
+		return tt.stack
+	}
+	return nil
+}
+
+// VerifStackDepth returns the number of scopes on the stack.
+func VerifStackDepth(s *Stack) int { return len(s.stack) }
+
+// VerifStackScopes returns the scopes bottom to top (the maps themselves, not copies).
+func VerifStackScopes(s *Stack) []map[string]any { return s.stack }
+
+// VerifCacheKeys lists the file names currently in the template cache.
+func VerifCacheKeys(v *Vue) []string {
+	v.templateMu.RLock()
+	defer v.templateMu.RUnlock()
+	out := make([]string, 0, len(v.templateCache))
+	for k := range v.templateCache {
+		out = append(out, k)
+	}
+	return out
+}
+
+// VerifCachedDOM returns the cached DOM of a file (nil when absent).
+func VerifCachedDOM(v *Vue, name string) []*html.Node {
+	v.templateMu.RLock()
+	defer v.templateMu.RUnlock()
+	if e, ok := v.templateCache[name]; ok {
+		return e.dom
+	}
+	return nil
+}
+
+// VerifInitialData returns the engine's pre-loaded config data.
+func VerifInitialData(v *Vue) map[string]any { return v.initialData }
+
+// VerifToMapData forwards to toMapData.
+func VerifToMapData(data any) map[string]any { return toMapData(data) }
+
+// VerifResolveValue forwards to internal/reflect.ResolveValue.
+func VerifResolveValue(v any, field string) (any, bool) { return ireflect.ResolveValue(v, field) }
+
+// VerifParsePipeExpr exposes the parsed shape of a pipe expression.
+func VerifParsePipeExpr(expr string) (initial string, segs [][]string) {
+	p := parsePipeExpr(expr)
+	for _, s := range p.segments {
+		segs = append(segs, append([]string{string(s.typ), s.expr, s.name}, s.args...))
+	}
+	return p.initial, segs
+}
+
+// VerifExprEval evaluates an expression with the engine's expr-lang evaluator.
+func VerifExprEval(v *Vue, expr string, env map[string]any) (any, error) { return v.exprEval.Eval(expr, env) }
